@@ -16,18 +16,14 @@ Qed.
 
 (* ---- well-formedness ---------------------------------------------------------------------------
    wfb false s : s may be consumed from the front   (every ITrust below announces the true count)
-   wfb true  s : s may be consumed from both ends   (additionally: no FnMut map, no padded take —
-                 std does not make those double-ended / order-independent)                         *)
+   wfb true  s : s may be consumed from both ends   (additionally: no FnMut map — its result depends on
+                 the order of the calls — and no padded take, which std does not make double-ended)    *)
 Fixpoint wfb (b : bool) (s : it) : Prop :=
   match s with
   | IList _ | IRange _ _ | IRepeatN _ _ => True
   | ILin _ _ index len => index <= len
-  | IChain _ _ x y => wfb b x /\ wfb b y
-  | IMap _ i | IBox i => wfb b i
-  (* next_back of Take / Skip / Zip / Enumerate goes through ExactSizeIterator::len(): modelled and
-     compared with the code, but outside the proved double-ended class (see notes/C09.md) *)
-  | IZip x y => b = false /\ wfb false x /\ wfb false y
-  | ITake i _ | ISkip i _ | IEnum i _ => b = false /\ wfb false i
+  | IChain _ _ x y | IZip x y => wfb b x /\ wfb b y
+  | ITake i _ | ISkip i _ | IEnum i _ | IMap _ i | IBox i => wfb b i
   | IMapS _ _ i => b = false /\ wfb false i
   | IPad _ i _ _ => b = false /\ wfb false i
   | IRev i => wfb true i
@@ -41,6 +37,9 @@ Qed.
 
 Lemma wfb_any : forall b s, wfb true s -> wfb b s.
 Proof. intros [] s H; [exact H | apply wfb_weaken; exact H]. Qed.
+
+Lemma wfb_front b s : wfb b s -> wfb false s.
+Proof. destruct b; [apply wfb_weaken | auto]. Qed.
 
 Definition exact (s : it) : Prop :=
   size_hint s = (length (elems s), Some (length (elems s))).
@@ -57,19 +56,19 @@ Proof.
   - destruct H as [Ha Hb]. specialize (IHs1 Ha). specialize (IHs2 Hb).
     rewrite app_length. destruct la, lb; cbn [length]; rewrite ?IHs1, ?IHs2; cbn [fst snd oadd];
       rewrite ?Nat.add_0_r; reflexivity.
-  - destruct H as [_ H]. specialize (IHs H). rewrite IHs. cbn [fst snd]. rewrite firstn_length.
+  - specialize (IHs H). rewrite IHs. cbn [fst snd]. rewrite firstn_length.
     destruct (n =? 0) eqn:E.
     + apply Nat.eqb_eq in E. subst n. reflexivity.
     + destruct (length (elems s) <? n) eqn:E2.
       * apply Nat.ltb_lt in E2. f_equal; [lia | f_equal; lia].
       * apply Nat.ltb_ge in E2. f_equal; [lia | f_equal; lia].
-  - destruct H as [_ H]. specialize (IHs H). rewrite IHs. cbn [fst snd option_map]. rewrite skipn_length. reflexivity.
-  - destruct H as (_ & Ha & Hb). specialize (IHs1 Ha). specialize (IHs2 Hb). rewrite IHs1, IHs2.
+  - specialize (IHs H). rewrite IHs. cbn [fst snd option_map]. rewrite skipn_length. reflexivity.
+  - destruct H as (Ha & Hb). specialize (IHs1 Ha). specialize (IHs2 Hb). rewrite IHs1, IHs2.
     cbn [fst snd omin]. rewrite map_length, combine_length. reflexivity.
   - specialize (IHs H). rewrite IHs, map_length. reflexivity.
   - destruct H as [_ H]. specialize (IHs H). rewrite IHs, run_len. reflexivity.
   - specialize (IHs (wfb_weaken _ H)). rewrite IHs, rev_length. reflexivity.
-  - destruct H as [_ H]. specialize (IHs H). rewrite IHs, map_length, combine_length, seq_length, Nat.min_id. reflexivity.
+  - specialize (IHs H). rewrite IHs, map_length, combine_length, seq_length, Nat.min_id. reflexivity.
   - cbv zeta. rewrite app_length, firstn_length, repeat_length.
     assert (E : Nat.min n (length (if la then elems s else [])) + (n - length (if la then elems s else [])) = n) by lia.
     rewrite E. reflexivity.
@@ -120,6 +119,66 @@ Proof. intros H. destruct n; [lia|]. replace (S n - 1) with n by lia. reflexivit
 
 Lemma seq_snoc a n : 0 < n -> seq a n = seq a (n - 1) ++ [a + (n - 1)].
 Proof. intros H. destruct n; [lia|]. replace (S n - 1) with n by lia. apply seq_S. Qed.
+
+(* DoubleEndedIterator::nth_back on a sound inner iterator *)
+Lemma nth_by_back f (Hf : sound_at f) : forall k i o i',
+  wfb true i -> depth i <= f -> nth_by (step f true) k i = (o, i') ->
+  match o with
+  | Some x => exists D, length D = k /\ elems i = elems i' ++ x :: D
+  | None => length (elems i) <= k /\ elems i' = []
+  end /\ wfb true i' /\ depth i' = depth i.
+Proof.
+  assert (Hdir : dir_ok true true) by (intros _; reflexivity).
+  induction k as [|k IH]; intros i o i' Hw Hd E; cbn [nth_by] in E.
+  - destruct (Hf true true i o i' Hdir Hw Hd E) as (Hs & Hw' & Hd'). split; [|split; assumption].
+    unfold spec in Hs. destruct o as [x|].
+    + exists []. split; [reflexivity | exact Hs].
+    + destruct Hs as [-> ->]. cbn. auto.
+  - destruct (step f true i) as [o1 i1] eqn:E1.
+    destruct (Hf true true i o1 i1 Hdir Hw Hd E1) as (Hs & Hw1 & Hd1). unfold spec in Hs.
+    destruct o1 as [x1|].
+    + destruct (IH i1 o i' Hw1 ltac:(lia) E) as (Hs2 & Hw2 & Hd2). split; [|split; [assumption|lia]].
+      destruct o as [x|].
+      * destruct Hs2 as (D & HD & HE). exists (D ++ [x1]). split; [rewrite app_length; cbn; lia|].
+        rewrite Hs, HE, <- app_assoc. reflexivity.
+      * destruct Hs2 as [Hl He]. split; [|exact He]. rewrite Hs, app_length. cbn. lia.
+    + injection E as <- <-. destruct Hs as [Hs1 Hs2]. split; [|split; assumption].
+      rewrite Hs1. cbn. split; [lia | exact Hs2].
+Qed.
+
+Lemma firstn_app_le {A} n (l1 l2 : list A) : n <= length l1 -> firstn n (l1 ++ l2) = firstn n l1.
+Proof.
+  intros H. rewrite firstn_app. replace (n - length l1) with 0 by lia. cbn. apply app_nil_r.
+Qed.
+
+Lemma drop_by_back f (Hf : sound_at f) : forall k i,
+  wfb true i -> depth i <= f ->
+  elems (drop_by (step f true) k i) = firstn (length (elems i) - k) (elems i)
+  /\ wfb true (drop_by (step f true) k i) /\ depth (drop_by (step f true) k i) = depth i.
+Proof.
+  assert (Hdir : dir_ok true true) by (intros _; reflexivity).
+  induction k as [|k IH]; intros i Hw Hd; cbn [drop_by].
+  - rewrite Nat.sub_0_r, firstn_all. auto.
+  - destruct (step f true i) as [o1 i1] eqn:E1. cbn [snd].
+    destruct (Hf true true i o1 i1 Hdir Hw Hd E1) as (Hs & Hw1 & Hd1). unfold spec in Hs.
+    destruct (IH i1 Hw1 ltac:(lia)) as (He & Hw2 & Hd2). split; [|split; [assumption|lia]].
+    rewrite He. destruct o1 as [x1|].
+    + rewrite Hs, app_length. cbn [length]. rewrite firstn_app_le by lia. f_equal. lia.
+    + destruct Hs as [-> ->]. rewrite !firstn_nil. reflexivity.
+Qed.
+
+Lemma combine_app_eq {A B} (l1 l2 : list A) (m1 m2 : list B) :
+  length l1 = length m1 -> combine (l1 ++ l2) (m1 ++ m2) = combine l1 m1 ++ combine l2 m2.
+Proof.
+  revert m1; induction l1 as [|a l1 IH]; intros [|b m1] H; try discriminate; [reflexivity|].
+  cbn. f_equal. apply IH. cbn in H. lia.
+Qed.
+
+Lemma combine_firstn_both {A B} : forall n (l : list A) (m : list B),
+  combine (firstn n l) (firstn n m) = firstn n (combine l m).
+Proof.
+  induction n as [|n IH]; intros [|a l] [|b m]; cbn; try reflexivity. f_equal. apply IH.
+Qed.
 
 Ltac fin := split; [|split; [cbn [wfb]; tauto | cbn [depth]; lia]]; unfold spec in *; cbn [elems].
 
@@ -184,34 +243,89 @@ Proof.
           destruct ob as [y|]; fin; cbn [app]; [exact Hsb | tauto]. }
         { injection E as <- <-. fin. cbn. auto. }
   - (* ITake *)
-    destruct Hw as [-> Hw]. assert (back = false) as -> by (destruct back; [discriminate (Hdir eq_refl) | reflexivity]).
     assert (Hdi : depth s <= f) by lia.
     destruct n as [|m].
-    + injection E as <- <-. fin. auto.
-    + destruct (step f false s) as [oi i'] eqn:Ei. injection E as <- <-.
-      destruct (IHf false false s oi i' Hdir Hw Hdi Ei) as (Hs & Hw' & Hd').
-      destruct oi as [x|]; fin.
-      * rewrite Hs. reflexivity.
-      * destruct Hs as [-> ->]. rewrite !firstn_nil. auto.
+    + injection E as <- <-. fin. destruct back; auto.
+    + destruct back.
+      * assert (b = true) as -> by (apply Hdir; reflexivity).
+        destruct (nth_by (step f true) (fst (size_hint s) - S m) s) as [oi i'] eqn:Ei. injection E as <- <-.
+        destruct (nth_by_back f IHf _ s oi i' Hw Hdi Ei) as (Hs & Hw' & Hd').
+        rewrite (wfb_exact s (wfb_weaken _ Hw)) in Hs. cbn [fst] in Hs.
+        destruct oi as [x|]; fin.
+        { destruct Hs as (D & HD & HE). rewrite HE in *. rewrite app_length in HD. cbn [length] in HD.
+          rewrite firstn_app.
+          assert (Hle : length (elems i') <= m) by lia.
+          rewrite (firstn_all2 (n:=S m)) by lia. rewrite (firstn_all2 (n:=m)) by lia. f_equal.
+          replace (S m - length (elems i')) with (S (m - length (elems i'))) by lia. cbn [firstn]. f_equal.
+          destruct D as [|d D]; [apply firstn_nil|]. cbn [length] in HD.
+          replace (m - length (elems i')) with 0 by lia. reflexivity. }
+        { destruct Hs as [Hl He]. assert (Hz : length (elems s) = 0) by lia.
+          destruct (elems s); [|discriminate]. rewrite He, !firstn_nil. auto. }
+      * destruct (step f false s) as [oi i'] eqn:Ei. injection E as <- <-.
+        destruct (IHf false b s oi i' Hdir Hw Hdi Ei) as (Hs & Hw' & Hd').
+        destruct oi as [x|]; fin.
+        { rewrite Hs. reflexivity. }
+        { destruct Hs as [-> ->]. rewrite !firstn_nil. auto. }
   - (* ISkip *)
-    destruct Hw as [-> Hw]. assert (back = false) as -> by (destruct back; [discriminate (Hdir eq_refl) | reflexivity]).
     assert (Hdi : depth s <= f) by lia.
-    destruct (nth_by (step f false) n s) as [oi i'] eqn:Ei. injection E as <- <-.
-    destruct (nth_by_fwd f IHf n false s oi i' Hw Hdi Ei) as (Hs & Hw' & Hd').
-    destruct oi as [x|]; fin; cbn [skipn]; tauto.
+    destruct back.
+    + assert (b = true) as -> by (apply Hdir; reflexivity).
+      pose proof (wfb_exact s (wfb_weaken _ Hw)) as Hex.
+      cbn [size_hint fst] in E. rewrite Hex in E. cbn [fst] in E.
+      destruct (0 <? length (elems s) - n) eqn:Eg.
+      * apply Nat.ltb_lt in Eg.
+        destruct (step f true s) as [oi i'] eqn:Ei. injection E as <- <-.
+        destruct (IHf true true s oi i' Hdir Hw Hdi Ei) as (Hs & Hw' & Hd').
+        destruct oi as [x|]; fin.
+        { rewrite Hs in *. rewrite app_length in Eg. cbn [length] in Eg.
+          rewrite skipn_app. replace (n - length (elems i')) with 0 by lia. reflexivity. }
+        { destruct Hs as [Hs _]. rewrite Hs in Eg. cbn in Eg. lia. }
+      * apply Nat.ltb_ge in Eg. injection E as <- <-. fin.
+        rewrite skipn_all2 by lia. auto.
+    + destruct (nth_by (step f false) n s) as [oi i'] eqn:Ei. injection E as <- <-.
+      destruct (nth_by_fwd f IHf n b s oi i' Hw Hdi Ei) as (Hs & Hw' & Hd').
+      destruct oi as [x|]; fin; cbn [skipn]; tauto.
   - (* IZip *)
-    destruct Hw as (-> & Hwa & Hwb).
-    assert (back = false) as -> by (destruct back; [discriminate (Hdir eq_refl) | reflexivity]).
+    destruct Hw as (Hwa & Hwb).
     assert (Hda : depth s1 <= f) by lia. assert (Hdb : depth s2 <= f) by lia.
-    destruct (step f false s1) as [oa a'] eqn:Ea.
-    destruct (IHf false false s1 oa a' Hdir Hwa Hda Ea) as (Hsa & Hwa' & Hda').
-    destruct oa as [x|].
-    + destruct (step f false s2) as [ob b'] eqn:Eb.
-      destruct (IHf false false s2 ob b' Hdir Hwb Hdb Eb) as (Hsb & Hwb' & Hdb').
-      destruct ob as [y|]; injection E as <- <-; fin.
-      * rewrite Hsa, Hsb. reflexivity.
-      * destruct Hsb as [-> ->]. rewrite !combine_nil. auto.
-    + injection E as <- <-. fin. destruct Hsa as [-> ->]. auto.
+    destruct back.
+    + assert (b = true) as -> by (apply Hdir; reflexivity).
+      rewrite (wfb_exact s1 (wfb_weaken _ Hwa)), (wfb_exact s2 (wfb_weaken _ Hwb)) in E. cbn [fst] in E.
+      set (A := elems s1) in *. set (B := elems s2) in *.
+      destruct (drop_by_back f IHf (length A - length B) s1 Hwa Hda) as (Ea1 & Hwa1 & Hda1).
+      destruct (drop_by_back f IHf (length B - length A) s2 Hwb Hdb) as (Eb1 & Hwb1 & Hdb1).
+      fold A in Ea1. fold B in Eb1.
+      set (a1 := drop_by (step f true) (length A - length B) s1) in *.
+      set (b1 := drop_by (step f true) (length B - length A) s2) in *.
+      destruct (step f true a1) as [oa a2] eqn:Ea.
+      destruct (step f true b1) as [ob b2] eqn:Eb.
+      destruct (IHf true true a1 oa a2 Hdir Hwa1 ltac:(lia) Ea) as (Hsa & Hwa2 & Hda2).
+      destruct (IHf true true b1 ob b2 Hdir Hwb1 ltac:(lia) Eb) as (Hsb & Hwb2 & Hdb2).
+      unfold spec in Hsa, Hsb.
+      set (M := Nat.min (length A) (length B)).
+      replace (length A - (length A - length B)) with M in Ea1 by lia.
+      replace (length B - (length B - length A)) with M in Eb1 by lia.
+      assert (HAB : combine A B = combine (firstn M A) (firstn M B)).
+      { rewrite combine_firstn_both. symmetry. apply firstn_all2. rewrite combine_length. lia. }
+      assert (La : length (elems a1) = M) by (rewrite Ea1, firstn_length; lia).
+      assert (Lb : length (elems b1) = M) by (rewrite Eb1, firstn_length; lia).
+      destruct oa as [x|], ob as [y|]; injection E as <- <-;
+        (split; [|split; [cbn [wfb]; tauto | cbn [depth]; lia]]); unfold spec; cbn [elems]; fold A; fold B;
+        rewrite HAB, <- Ea1, <- Eb1.
+      * rewrite Hsa, Hsb in *. rewrite app_length in La, Lb. cbn [length] in La, Lb.
+        rewrite combine_app_eq by lia. rewrite map_app. reflexivity.
+      * destruct Hsb as [Hb1 Hb2]. rewrite Hsa in La. rewrite Hb1 in Lb. rewrite app_length in La. cbn in La, Lb. lia.
+      * destruct Hsa as [Ha1 Ha2]. rewrite Hsb in Lb. rewrite Ha1 in La. rewrite app_length in Lb. cbn in La, Lb. lia.
+      * destruct Hsa as [Ha1 Ha2]. rewrite Ha1, Ha2. cbn. auto.
+    + destruct (step f false s1) as [oa a'] eqn:Ea.
+      destruct (IHf false b s1 oa a' Hdir Hwa Hda Ea) as (Hsa & Hwa' & Hda').
+      destruct oa as [x|].
+      * destruct (step f false s2) as [ob b'] eqn:Eb.
+        destruct (IHf false b s2 ob b' Hdir Hwb Hdb Eb) as (Hsb & Hwb' & Hdb').
+        destruct ob as [y|]; injection E as <- <-; fin.
+        { rewrite Hsa, Hsb. reflexivity. }
+        { destruct Hsb as [-> ->]. rewrite !combine_nil. auto. }
+      * injection E as <- <-. fin. destruct Hsa as [-> ->]. auto.
   - (* IMap *)
     assert (Hdi : depth s <= f) by lia.
     destruct (step f back s) as [oi i'] eqn:Ei. injection E as <- <-.
@@ -239,13 +353,16 @@ Proof.
       * rewrite rev_app_distr. reflexivity.
     + destruct Hs as [-> ->]. auto.
   - (* IEnum *)
-    destruct Hw as [-> Hw]. assert (back = false) as -> by (destruct back; [discriminate (Hdir eq_refl) | reflexivity]).
     assert (Hdi : depth s <= f) by lia.
-    destruct (step f false s) as [oi i'] eqn:Ei.
-    destruct (IHf false false s oi i' Hdir Hw Hdi Ei) as (Hs & Hw' & Hd').
-    destruct oi as [x|]; injection E as <- <-; fin.
-    + rewrite Hs. reflexivity.
-    + destruct Hs as [-> ->]. auto.
+    destruct (step f back s) as [oi i'] eqn:Ei.
+    destruct (IHf back b s oi i' Hdir Hw Hdi Ei) as (Hs & Hw' & Hd').
+    destruct oi as [x|].
+    + destruct back; injection E as <- <-; fin.
+      * rewrite (wfb_exact i' (wfb_front _ _ Hw')). cbn [fst].
+        rewrite Hs, app_length. cbn [length]. rewrite Nat.add_1_r, seq_S.
+        rewrite combine_app_eq by (rewrite seq_length; reflexivity). rewrite map_app. reflexivity.
+      * rewrite Hs. reflexivity.
+    + injection E as <- <-. fin. destruct Hs as [-> ->]. auto.
   - (* IPad *)
     destruct Hw as [-> Hw]. assert (back = false) as -> by (destruct back; [discriminate (Hdir eq_refl) | reflexivity]).
     assert (Hdi : depth s <= f) by lia.
@@ -293,8 +410,6 @@ Proof.
   eapply (step_sound (depth s)); eauto.
 Qed.
 
-Lemma wfb_front b s : wfb b s -> wfb false s.
-Proof. destruct b; [apply wfb_weaken | auto]. Qed.
 
 (* what plain safe iteration (call next() until None) yields *)
 Inductive yields : it -> list val -> Prop :=
@@ -624,23 +739,6 @@ Lemma build_wf src gs s : build src gs = Ok s -> wfb false s.
 Proof.
   unfold build. destruct (build_source src) as [t|k] eqn:Es; cbn [bind]; [|discriminate].
   intros E. apply (apply_stages_wf gs (IBox t)); [|exact E]. cbn [wfb]. exact (build_source_wf src t Es).
-Qed.
-
-(* the double-ended class the FULL statement would cover: also next_back through Take / Skip / Zip /
-   Enumerate (std computes those from ExactSizeIterator::len()).  Only used to state what is missing. *)
-Fixpoint wfd (s : it) : Prop :=
-  match s with
-  | IList _ | IRange _ _ | IRepeatN _ _ => True
-  | ILin _ _ index len => index <= len
-  | IChain _ _ x y | IZip x y => wfd x /\ wfd y
-  | ITake i _ | ISkip i _ | IEnum i _ | IMap _ i | IBox i | IRev i => wfd i
-  | IMapS _ _ _ | IPad _ _ _ _ => False
-  | ITrust i len => len = length (elems i) /\ wfd i
-  end.
-
-Lemma wfb_true_wfd : forall s, wfb true s -> wfd s.
-Proof.
-  induction s; cbn [wfb wfd]; intros H; try tauto; try (destruct H as [H _]; discriminate).
 Qed.
 
 (* summary lemmas used by Props/C09.v *)
